@@ -311,8 +311,13 @@ def gen_term(rng, cfg, d, pool=None):
     if o in ('sqrt', 'ln'):
         return N(o, safe)
     if o == 'pow':
+        if rng.random() < 0.4:
+            # a signal-valued exponent in [-2, 2] (the base is >= 1): both operands of the operation carry samples
+            return N('pow', safe, N('div', V(rng.choice(cfg.vars)), C(4.0)))
         return N('pow', safe, C(rng.choice([0.0, 1.0, 2.0, 0.5])))
     if o == 'log':
+        if rng.random() < 0.4:
+            return N('log', safe, N('add', N('abs', V(rng.choice(cfg.vars))), C(2.0)))      # base >= 2
         return N('log', safe, C(rng.choice([2.0, 4.0, 0.5])))
     raise AssertionError(o)
 
@@ -564,7 +569,7 @@ def from_jsonable(j):
 def dense_cfg(rng, **kw):
     nv = rng.choice([1, 2, 2, 3])
     c = GenCfg(vars=list(VAR_POOL[:nv]), max_depth=rng.choice([1, 2, 2, 3, 3, 4]), prevnext=False, events=False,
-               max_bound=rng.choice([4, 8, 12]), bound_step=Fraction(1, 4))
+               max_bound=rng.choice([4, 8, 12]), bound_step=Fraction(1, 4), transcend=rng.random() < 0.15)
     c.__dict__.update(kw)
     return c
 
